@@ -110,8 +110,8 @@ func startMOSN(dir string, scs []*scenario, extra []v2.Listener, extraRouters []
 	mosn.DefaultPreStartStage(m)
 	go m.Start()
 	mu.m = m
-	// wait until the first and the last listener accept
-	for _, l := range []v2.Listener{listeners[0], listeners[len(listeners)-1]} {
+	// wait until every listener accepts (they are started one goroutine each)
+	for _, l := range listeners {
 		okc := false
 		for w := 0; w < 200 && !okc; w++ {
 			if c, err := dialLocal(l.AddrConfig, 100*time.Millisecond); err == nil {
@@ -203,7 +203,11 @@ func c11Server(run *Run, dir string) int {
 			scs = append(scs, sc)
 		}
 	}
-	mu, err := startMOSN(dir, scs, nil, nil, nil)
+	// one more bolt listener for the in-process hot-upgrade part
+	xUp, xClose := upstreamFor("bolt")
+	defer xClose()
+	xl, xrc, xcl := listenerFor(xferListener, fmt.Sprintf("127.0.0.1:%d", freePort()), "bolt", "vh-router-x", "vh-up-x", xUp)
+	mu, err := startMOSN(dir, scs, []v2.Listener{xl}, []*v2.RouterConfiguration{xrc}, []v2.Cluster{xcl})
 	if err != nil {
 		fmt.Println(err)
 		return 2
@@ -410,7 +414,7 @@ func c11Server(run *Run, dir string) int {
 	}
 	sh.Close()
 	ann.Close()
-	return 0
+	return c11Transfer(run, mu, xl)
 }
 
 func max(a, b int) int {
